@@ -437,7 +437,26 @@ func weakeningsOf(x cty.Value, full bool) []cty.Value {
 	}
 	out = append(out, cty.UnknownVal(ty))
 	if x.IsNull() {
-		return out
+		// a null is admitted by every unknown not refined as non-null: bounds, prefix and
+		// length refinements apply "only if the value turns out not to be null"
+		// (value_range.go), so a nullable unknown carrying them is a valid weakening
+		switch {
+		case ty == cty.Number:
+			add(func() cty.Value { return cty.UnknownVal(ty).Refine().NumberRangeLowerBound(cty.NumberIntVal(100), true).NewValue() })
+			if full {
+				add(func() cty.Value {
+					return cty.UnknownVal(ty).Refine().NumberRangeLowerBound(cty.Zero, false).NumberRangeUpperBound(cty.NumberIntVal(1), false).NewValue()
+				})
+			}
+		case ty == cty.String:
+			add(func() cty.Value { return cty.UnknownVal(ty).Refine().StringPrefixFull("zq").NewValue() })
+		case ty.IsCollectionType():
+			add(func() cty.Value { return cty.UnknownVal(ty).Refine().CollectionLengthLowerBound(5).NewValue() })
+			if full {
+				add(func() cty.Value { return cty.UnknownVal(ty).Refine().CollectionLengthUpperBound(0).NewValue() })
+			}
+		}
+		return dedupRaw(out)
 	}
 	add(func() cty.Value { return cty.UnknownVal(ty).RefineNotNull() })
 	switch {
